@@ -351,5 +351,10 @@ def check(model, rep):
     sxm.NONNEG_ATOMS.clear()
     rep.analysed['methods'] = ['DCMotor.compute_torque', 'DCMotor.compute_electric_current', 'DCMotor.__init__']
     rep.analysed['positive_facts_from_ctor'] = sorted(pos)
+    # the formulas' quantity arithmetic is interpreted natively; the operator triples actually met are re-read from C06's dispatch model
+    from checks.solver_common import absorb_arith
+    used = sorted(t for t in sx.arith_log)
+    absorb_arith(model, rep, 'C08.dep.arith', used)
+    rep.analysed['operator_triples_used'] = [' '.join(t) for t in used]
     rep.assume('quantity operators and comparisons are unit-blind and dimensionally sound (decided by C05/C06)')
     rep.assume('equality of formulas is over the reals; floating-point re-association is rounding')
